@@ -18,7 +18,8 @@ LEVEL_TEXT = ("Coq theorems over a Gallina model of exec_command_unregister / un
               "all TTL 0), it is queued once for now + 120 and repeated unchanged on the same interface and family; shutdown "
               "says goodbye once per service and leaves nothing to repeat; a pending second announcement of an unregistered "
               "service does nothing and no query is answered without an announced service. The executable statement chk_C09 "
-              "(replies, goodbyes, the wake-up requested for the repeat, silence, judged against the model's state) runs as a monitor on the real daemon thread in "
+              "(replies, goodbyes, the wake-up requested for the repeat, silence, SRV/TXT proposals in probe queries only for "
+              "registered services, judged against the model's state) runs as a monitor on the real daemon thread in "
               "the simulated world")
 TECHNIQUE = ("machine-checked proof in Coq (functional specification of the goodbye, frame property of unregister) + "
              "model/implementation correspondence on simulated-daemon histories")
@@ -51,9 +52,11 @@ PARTIAL = ("Names with non-ASCII cased letters are outside the model (Base/Bytes
            "for now + 1000 and goodbye repeats for now + 120 (C09_queue_growth), no due entry survives an iteration "
            "(C09_no_overdue_repeat), the repeat is sent once and leaves the queue (C09_repeat_run_once); for every state the "
            "goodbye and its repeat go out on every interface/family the service is announced on "
-           "(C09_goodbye_everywhere_announced). REFUTED: that nothing of the service remains in the registry after the "
-           "repeat (C09_registry_forgets_unregistered_service_refuted; finding C09-registry-keeps-unregistered-service, "
-           "not rejected by the monitors). SILENCE over all histories (round 5, micro-step reading of an iteration, "
+           "(C09_goodbye_everywhere_announced). After the unregister no interface registry holds a probing, active or "
+           "name_changes entry under the service's registered or current full name, for every state "
+           "(C09_unregister_forgets_the_service_names, fix d685fcf; formerly refuted); everything under other names - the "
+           "host-name entries above all - stays as it was (C09_unregister_keeps_other_names): a host-name probe in flight "
+           "runs to its end, but no response record is ever built from it. SILENCE over all histories (round 5, micro-step reading of an iteration, "
            "Model/RegistryTrace.v): every response is a goodbye or consists of records (rec_of) of services that are in the "
            "service map when the micro-step that sends it ends, under the names the interface's registry holds then, with a "
            "key that was in the map before the iteration or is registered by one of its calls "
